@@ -32,8 +32,8 @@ EXTENDS Naturals, FiniteSets, TLC, Emit
 
 CONSTANTS N, NCSets, Configs   \* NCSets: the sets of failing inputs explored
 
-VARIABLES cfg, NC, s, run, todo, cur, step, calls2, phase, at
-vars == <<cfg, NC, s, run, todo, cur, step, calls2, phase, at>>
+VARIABLES cfg, idopt, NC, s, run, todo, cur, step, calls2, phase, at
+vars == <<cfg, idopt, NC, s, run, todo, cur, step, calls2, phase, at>>
 
 Ids == 1..N
 RecStates == {"none", "rec_partial", "rec_nomd5", "md5_partial", "done"}
@@ -57,6 +57,19 @@ IntendedConfigs == {RIntended, RIntendedSkip}
 HoldingConfigs == IntendedConfigs \cup {RSqlite}   \* the resume property holds for these
 
 ------------------------------------------------------------------------------
+(* The id_from_source OPTION.  The identifier under which the result of an input is stored, and under which a re-run  *)
+(* asks "already done?", is made by ONE function: the id_from_source argument of apply_to ("makes the unique          *)
+(* identifier from elements of dstore that will be used for writing results"), the default get_unique_id when it is    *)
+(* left out.  The writer app has an option of the same name given at construction; it names the record only when the  *)
+(* writer is called directly, under apply_to it has no effect.  Where the option is given is a dimension of every run: *)
+(*   "default"  left out everywhere            "apply_to"  a custom function passed to apply_to                        *)
+(*   "writer"   a custom function given to the writer's constructor only                                               *)
+(*   "both"     two different custom functions, one to each                                                            *)
+(* Both runs of a scenario use the same option.  The resume behaviour modelled below is the same for all four; what    *)
+(* the option decides is the NAME of every record, stated here and used by the harness to find the records.            *)
+IdOptions == {"default", "apply_to", "writer", "both"}
+RecordsNamedBy(o) == IF o \in {"apply_to", "both"} THEN "apply_to_argument" ELSE "get_unique_id"
+
 (* THE PROPERTY, per input: a = record state when run 1 was interrupted,      *)
 (* called = the pipeline was invoked for the input in run 2, f = record state *)
 (* after run 2, isnc = the input yields NotCompleted.                         *)
@@ -68,8 +81,8 @@ ResumeOK == (phase = "finished" /\ run = 2) => \A i \in Ids : RecOK(at[i], i \in
 RerunCompletes == phase # "raised"
 
 ------------------------------------------------------------------------------
-St  == [cfg |-> cfg.name, nc |-> NC, s |-> s, run |-> run, cur |-> cur, step |-> step, calls2 |-> calls2, phase |-> phase, at |-> at]
-StP == [cfg |-> cfg'.name, nc |-> NC', s |-> s', run |-> run', cur |-> cur', step |-> step', calls2 |-> calls2', phase |-> phase', at |-> at']
+St  == [cfg |-> cfg.name, idopt |-> idopt, namedby |-> RecordsNamedBy(idopt), nc |-> NC, s |-> s, run |-> run, cur |-> cur, step |-> step, calls2 |-> calls2, phase |-> phase, at |-> at]
+StP == [cfg |-> cfg'.name, idopt |-> idopt', namedby |-> RecordsNamedBy(idopt'), nc |-> NC', s |-> s', run |-> run', cur |-> cur', step |-> step', calls2 |-> calls2', phase |-> phase', at |-> at']
 Log(act, args) == Emit([from |-> St, act |-> act, args |-> args, to |-> StP])
 
 Skipped(i) ==
@@ -78,6 +91,7 @@ Skipped(i) ==
       [] cfg.skip = "complete" -> s[i] = "done" /\ (i \notin NC \/ cfg.ncrerun = "skip")
 
 Init == /\ cfg \in Configs
+        /\ idopt \in IdOptions
         /\ NC \in NCSets
         /\ s = [i \in Ids |-> "none"]
         /\ run = 1
@@ -94,7 +108,7 @@ PickT == /\ phase = "run" /\ cur = 0 /\ todo # {}
          /\ LET i == Min(todo) IN
               /\ cur' = i /\ step' = 0
               /\ calls2' = IF run = 2 THEN calls2 \cup {i} ELSE calls2
-         /\ UNCHANGED <<cfg, NC, s, run, todo, phase, at>>
+         /\ UNCHANGED <<cfg, idopt, NC, s, run, todo, phase, at>>
 
 (* one file-system step of the record write *)
 WriteStepT ==
@@ -111,25 +125,25 @@ WriteStepT ==
                          THEN cur' = 0 /\ step' = 0 /\ todo' = todo \ {cur}
                          ELSE step' = step + 1 /\ UNCHANGED <<cur, todo>>
               /\ UNCHANGED phase
-    /\ UNCHANGED <<cfg, NC, run, calls2, at>>
+    /\ UNCHANGED <<cfg, idopt, NC, run, calls2, at>>
 
 (* KeyboardInterrupt raised by the store's write before it touches anything *)
 SoftInterruptT == /\ phase = "run" /\ run = 1 /\ cur # 0 /\ step = 0
                   /\ phase' = "interrupted" /\ at' = s
-                  /\ UNCHANGED <<cfg, NC, s, run, todo, cur, step, calls2>>
+                  /\ UNCHANGED <<cfg, idopt, NC, s, run, todo, cur, step, calls2>>
 (* the process dies between two file-system calls *)
 KillT == /\ phase = "run" /\ run = 1
          /\ phase' = "interrupted" /\ at' = s
-         /\ UNCHANGED <<cfg, NC, s, run, todo, cur, step, calls2>>
+         /\ UNCHANGED <<cfg, idopt, NC, s, run, todo, cur, step, calls2>>
 
 ResumeT == /\ phase = "interrupted"
            /\ run' = 2 /\ phase' = "run" /\ cur' = 0 /\ step' = 0
            /\ todo' = {i \in Ids : ~Skipped(i)}
-           /\ UNCHANGED <<cfg, NC, s, calls2, at>>
+           /\ UNCHANGED <<cfg, idopt, NC, s, calls2, at>>
 
 FinishT == /\ phase = "run" /\ cur = 0 /\ todo = {}
            /\ phase' = "finished"
-           /\ UNCHANGED <<cfg, NC, s, run, todo, cur, step, calls2, at>>
+           /\ UNCHANGED <<cfg, idopt, NC, s, run, todo, cur, step, calls2, at>>
 
 Pick == PickT /\ Log("Pick", <<>>)
 WriteStep == WriteStepT /\ Log("WriteStep", <<>>)
@@ -141,7 +155,8 @@ Finish == FinishT /\ Log("Finish", <<>>)
 Next == Pick \/ WriteStep \/ SoftInterrupt \/ Kill \/ Resume \/ Finish
 Spec == Init /\ [][Next]_vars
 
-TypeOK == /\ s \in [Ids -> RecStates] /\ at \in [Ids -> RecStates]
+TypeOK == /\ idopt \in IdOptions
+          /\ s \in [Ids -> RecStates] /\ at \in [Ids -> RecStates]
           /\ run \in {1, 2} /\ todo \subseteq Ids /\ cur \in 0..N /\ step \in 0..3
           /\ calls2 \subseteq Ids /\ phase \in {"run", "interrupted", "finished", "raised"}
 
